@@ -18,7 +18,7 @@ class KillHook:
         self.log = []
 
     def _tick(self, kind, label):
-        if self.at is not None and self.n == self.at:
+        if self.at is not None and self.at >= 0 and self.n == self.at:
             os.kill(os.getpid(), signal.SIGKILL)
         self.n += 1
         if self.at is None:
@@ -36,8 +36,25 @@ class KillHook:
         pass
 
 
-def run_child(work, at):
+def shim():
+    """The LD_PRELOAD kill shim, if this process was started with it."""
+    import ctypes
+    if 'killshim' not in os.environ.get('LD_PRELOAD', ''):
+        return None
+    try:
+        lib = ctypes.CDLL(None)
+        lib.ks_arm.argtypes = [ctypes.c_long, ctypes.c_char_p]
+        lib.ks_count.restype = ctypes.c_long
+        return lib
+    except (OSError, AttributeError):
+        return None
+
+
+def run_child(work, at, sys_at=None, sys_prefix=None):
     """Fork; the child runs work(journal) under a KillHook(at).
+
+    sys_at: kill right before the sys_at-th write-class system call below
+    sys_prefix (needs the LD_PRELOAD shim); -1 = only count them.
 
     work(journal) must call journal(i) after completing operation i.
     Returns (completed_ops, event_log or None, killed: bool)."""
@@ -50,15 +67,22 @@ def run_child(work, at):
             os.close(w_go)
             os.close(r_j)
             os.read(r_go, 1)            # wait for the parent's handle
-            hook = KillHook(at)
+            hook = KillHook(at if sys_at is None else -1)
             ENV.hook = hook
+            lib = shim() if sys_at is not None else None
+            if lib is not None:
+                lib.ks_arm(sys_at, sys_prefix.encode())
 
             def journal(i):
                 os.write(w_j, struct.pack('<i', i))
 
             work(journal)
             ENV.hook = None
-            if at is None:
+            if lib is not None:
+                n = lib.ks_count()
+                lib.ks_disarm()
+                os.write(w_j, struct.pack('<i', -2) + struct.pack('<i', n))
+            if at is None and sys_at is None:
                 import json
                 data = json.dumps(hook.log).encode()
                 os.write(w_j, struct.pack('<i', -1))
@@ -85,11 +109,15 @@ def finish_child(pid, r_j):
     os.close(r_j)
     completed = 0
     log = None
+    finish_child.syscalls = None
     off = 0
     while off + 4 <= len(data):
         (v,) = struct.unpack_from('<i', data, off)
         off += 4
-        if v == -1:
+        if v == -2:
+            (finish_child.syscalls,) = struct.unpack_from('<i', data, off)
+            off += 4
+        elif v == -1:
             (n,) = struct.unpack_from('<i', data, off)
             off += 4
             import json
